@@ -35,6 +35,8 @@ def make_case(seed, prop, index, families=MAIN_FAMILIES, flavours=S.FLAVOURS_MAI
         case = g.case_reuse(flavour, shape, 0, n, base_side=rng.randrange(2), two_sided=True)
     elif fam in ("REMK0", "REMK1"):
         case = g.case_remk(flavour, shape, int(fam[-1]), max(2, n // 2))
+    elif fam == "RENCLASH":
+        case = g.case_renclash(flavour, shape, n)
     elif fam == "DEEPMK":
         case = g.case_deepmk(flavour, shape, n)
     elif fam == "SWAP":
